@@ -273,6 +273,14 @@ func run(t *testing.T, sc scen, onLeak func(string)) (fail *failure, outcome str
 					_ = gen2.Close()
 					gen2 = nil
 				}
+				// a dial whose Select.req has been waiting for a while may hit its T6 before our answer
+				// arrives (the library would then, rightly, be NotConnected again): take a fresh one
+				if gen2 != nil {
+					if ch := gen2.Received(); len(ch) > 0 && w.Now()-ch[0].At > 500*time.Millisecond {
+						_ = gen2.Close()
+						gen2 = nil
+					}
+				}
 			} else if p := w.Net.Connect(); p != nil {
 				gen2 = p
 			}
@@ -407,7 +415,7 @@ func errClasses(cs []*sendCall) string {
 func TestCheck(t *testing.T) {
 	vfw.Main(t, "C09", func(c *vfw.Ctx) {
 		c.Level("model_checking")
-		c.Rule("E2 enumeration: roles {active, passive} x synchronous sends awaiting a reply {0,1,2} x a send blocked mid-write {no, yes} x queued fire-and-forget sends {0,1,3} x generation-ending event {peer close, peer reset, write timeout, Close+Open, linktest failure, T8 inside a frame, Separate.req} x failed dials before the reconnect {0,2} x late reply for an old transaction {no, yes} x new sends {0,2} (thorough: the full product; quick: a covering subset) on a real hsmsss connection in a synctest bubble; every payload carries a token naming the generation whose send call accepted it; oracle: the generation-2 socket never carries a generation-1 token, every generation-1 waiter returns connection-closed / its own timeout within close timeout + write timeout of the drop and never a reply, a late reply never completes a generation-2 send, generation-2 sends get their own replies. non-trivial = at least one generation-1 send in flight")
+		c.Rule("E2 enumeration: roles {active, passive} x synchronous sends awaiting a reply {0,1,2} x a send blocked mid-write {no, yes} x queued fire-and-forget sends {0,1,3} (and 70, more than the send queue holds, behind a blocked write, for every ending event) x generation-ending event {peer close, peer reset, write timeout, Close+Open, linktest failure, T8 inside a frame, Separate.req} x failed dials before the reconnect {0,2} x late reply for an old transaction {no, yes} x new sends {0,2} (thorough: the full product; quick: a covering subset) on a real hsmsss connection in a synctest bubble; every payload carries a token naming the generation whose send call accepted it; oracle: the generation-2 socket never carries a generation-1 token, every generation-1 waiter returns connection-closed / its own timeout within close timeout + write timeout of the drop and never a reply, a late reply never completes a generation-2 send, generation-2 sends get their own replies. non-trivial = at least one generation-1 send in flight")
 		c.Rule("E2 slow handler: {active, passive} x generation ended by {Close(), linktest expiry (interval 2 s, T6 1 s, threshold 1)} x {1, 2} reply-expected sends waiting while the receive goroutine is inside a data handler that takes 4 s: every waiting send returns the connection-closed error within 1 s of the end of the generation (T3 = 30 s, close timeout 10 s), Close returns once the handler has; and {active, passive} x {1, 2} waiting sends x Close() on a link whose peer has stopped reading with nobody mid-write (data write timeout 5 s): every waiting send returns the connection-closed error within 1 s, Close within 2 s")
 		c.Assume("testing/synctest", "sim network", "instrumented tree (scheduler inactive) so that mutex waits are durable blocks")
 		c.Rule("E3: every schedule with <= B departures (quick 1, thorough 2) of {sender (sync / async) pinned to generation 1, peer drop, reconnecting+selecting peer} on the real instrumented active connection; oracle: generation 2's socket never carries the generation-1 token, the synchronous call ends with a definite error")
@@ -429,6 +437,16 @@ func TestCheck(t *testing.T) {
 		}
 		defer partSched(c, t)
 		partSlow(c, t)
+		// more fire-and-forget sends than the send queue holds (64) behind a blocked write: the
+		// callers beyond the queue block in the enqueue and are released by the end of the generation
+		for _, active := range []bool{true, false} {
+			for _, end := range ends {
+				if !c.Next() {
+					continue
+				}
+				one(c, t, scen{Active: active, Sync: 1, Blocked: true, Async: 70, End: end, NewSends: 2})
+			}
+		}
 		for _, active := range []bool{true, false} {
 			for _, end := range ends {
 				for _, sync := range []int{0, 1, 2} {
